@@ -13,6 +13,15 @@ MUTANTS = [
     {'name': 'gumbel-ppf-batch-shortcut', 'rule': 'D2.rows', 'file': GU, 'old': "        if self.theta == 1:\n            return y\n", 'new': "        if self.theta == 1 or (V == 1).all():\n            return y\n"},
     {'name': 'frank-cdf-unguarded', 'rule': 'D3.guard', 'file': F, 'old': "        self.check_fit()\n\n        U, V = split_matrix(X)\n\n        num = (np.exp(-self.theta * U) - 1)", 'new': "        U, V = split_matrix(X)\n\n        num = (np.exp(-self.theta * U) - 1)"},
     {'name': 'check-fit-without-theta-check', 'rule': 'D3.guard', 'file': 'bivariate/base.py', 'old': "            raise NotFittedError('This model is not fitted.')\n\n        self.check_theta()\n", 'new': "            raise NotFittedError('This model is not fitted.')\n"},
+    {'name': 'clayton-zero-guard-returns-one', 'rule': 'D4.values', 'file': C, 'old': "                else 0\n", 'new': "                else 1\n"},
+    {'name': 'clayton-outer-exponent-sign', 'rule': 'D4.values', 'file': C, 'old': "                    -1.0 / self.theta,\n", 'new': "                    1.0 / self.theta,\n"},
+    {'name': 'clayton-shortcut-ones', 'rule': 'D4.values', 'file': C, 'old': "            return np.zeros(V.shape[0])", 'new': "            return np.ones(V.shape[0])"},
+    {'name': 'frank-log-sign', 'rule': 'D4.values', 'file': F, 'old': "        return -1.0 / self.theta * np.log(1 + num / den)", 'new': "        return 1.0 / self.theta * np.log(1 + num / den)"},
+    {'name': 'frank-missing-minus-one', 'rule': 'D4.values', 'file': F, 'old': "num = (np.exp(-self.theta * U) - 1) * (np.exp(-self.theta * V) - 1)", 'new': "num = np.exp(-self.theta * U) * np.exp(-self.theta * V)"},
+    {'name': 'gumbel-exp-sign', 'rule': 'D4.values', 'file': GU, 'old': "            h = -np.power(h, 1.0 / self.theta)", 'new': "            h = np.power(h, 1.0 / self.theta)"},
+    {'name': 'gumbel-stable-form-nan-corners', 'rule': 'D4.values', 'file': GU,
+     'old': "            h = np.power(-np.log(U), self.theta) + np.power(-np.log(V), self.theta)\n            h = -np.power(h, 1.0 / self.theta)\n            cdfs = np.exp(h)",
+     'new': "            x = -np.log(U)\n            y = -np.log(V)\n            big = np.maximum(x, y)\n            small = np.minimum(x, y)\n            h = big * np.power(1 + np.power(small / big, self.theta), 1.0 / self.theta)\n            cdfs = np.exp(-h)"},
 ]
 REWRITES = [
     {'name': 'clayton-commuted-sum', 'file': C, 'old': "np.power(U[i], -self.theta) + np.power(V[i], -self.theta) - 1,", 'new': "np.power(V[i], -self.theta) - 1 + np.power(U[i], -self.theta),"},
@@ -21,4 +30,8 @@ REWRITES = [
     {'name': 'clayton-vectorised-where', 'file': C,
      'old': "            cdfs = [\n                np.power(\n                    np.power(U[i], -self.theta) + np.power(V[i], -self.theta) - 1,\n                    -1.0 / self.theta,\n                )\n                if (U[i] > 0 and V[i] > 0)\n                else 0\n                for i in range(len(U))\n            ]\n\n            return np.array(cdfs)",
      'new': "            positive = (U > 0) & (V > 0)\n            inner = np.power(U, -self.theta) + np.power(V, -self.theta) - 1\n            return np.where(positive, np.power(inner, -1.0 / self.theta), 0)"},
+    {'name': 'gumbel-single-expression', 'file': GU,
+     'old': "            h = np.power(-np.log(U), self.theta) + np.power(-np.log(V), self.theta)\n            h = -np.power(h, 1.0 / self.theta)\n            cdfs = np.exp(h)\n            return cdfs",
+     'new': "            lu, lv = -np.log(U), -np.log(V)\n            return np.exp(-((lu ** self.theta + lv ** self.theta) ** (1.0 / self.theta)))"},
+    {'name': 'frank-expm1', 'file': F, 'old': "        den = np.exp(-self.theta) - 1\n\n        return -1.0 / self.theta * np.log(1 + num / den)", 'new': "        den = np.expm1(-self.theta)\n\n        return -np.log1p(num / den) / self.theta"},
 ]
